@@ -12,7 +12,7 @@ LEAN_MODULES = ["CatiiProps.C11"]
 USES_TRANSLATOR = True
 RULE = ("cases as C10; for each: impl bytes == bytes of an independent encoder written from the format docstring (and == "
         "the Lean model's bytes); independent decoder recovers the data from impl bytes; impl loader recovers the data from "
-        "independently encoded bytes for every legal coordinate word size >= the narrowest and row-id word sizes 1/2/4/8; "
+        "independently encoded bytes for every legal coordinate word size >= the narrowest and row-id word sizes 1/2/4/8 (also with entry lengths that add up past the range of a 1- or 2-byte row-id word); "
         "entries of 2^16-1 .. 2^17+5 row ids mixed with short ones in every order (bytes vs the independent encoder, loader round trip); size field checked at 2^30-1, 2^30, 2^32+5 total row ids with duck-typed arrays (nothing materialised). "
         "Non-trivial = at least one entry; distinct by (input, widths)")
 ASSUMPTIONS = ["the class docstring of IndxIO is the format specification", "little-endian platform"]
@@ -133,6 +133,32 @@ def long_case(ctx, ld, case):
         ctx.oracle_fail("loader does not give back entries of %s row ids" % [d[1] for d in case["long"]], case, cls="C11-reader")
 
 
+def narrow_rowid_reader(ctx, ld, reqs, pend):
+    """files an independent writer lays out with 1- or 2-byte row-id words whose lengths add up past the range of that
+    word (each length and each row id still fits it): the loader must walk the row-id block with exact offsets"""
+    for wr, L, n in ((1, 100, 3), (1, 128, 2), (1, 200, 2), (1, 255, 3), (2, 30000, 3), (2, 40000, 2)):
+        step = 1 if wr == 1 else 2
+        entries = [[[k + 1], list(range(k % 2, k % 2 + L * step, step))[:L]] for k in range(n)]
+        entries = [[k, [r for r in rows if r < 256 ** wr]] for k, rows in entries]
+        common = 0
+        case = {"reader_rowid_word": wr, "entry_lengths": [len(r) for _, r in entries], "common": common}
+        ctx.case(case, nontrivial=True)
+        ctx.hit("reader_narrow_rowids:%d" % wr)
+        ib = X.spec_encode(entries, common, None, wr)
+        lo = ld.load(ib)
+        if lo[0] != "ok":
+            ctx.oracle_fail("loader raised %s on a documented-layout file with %d-byte row-id words and entry lengths %s" % (
+                lo[1], wr, case["entry_lengths"]), case, cls="C11-reader")
+        elif lo[1] != X.canon(entries) or lo[2] != common:
+            bad = [k for (k, r), (k2, r2) in zip(X.canon(entries), lo[1]) if r != r2][:2]
+            ctx.oracle_fail("loader recovers different row ids from a documented-layout file with %d-byte row-id words and entry "
+                            "lengths %s (first differing keys %s: the lengths add up past the word's range)" % (
+                                wr, case["entry_lengths"], bad), case, cls="C11-reader")
+        if wr == 1:
+            reqs.append({"op": "indx_load", "hex": ib.hex()})
+            pend.append(("load", case, lo))
+
+
 def run(ctx):
     core.load_catii()
     ld = X.Loader()
@@ -157,6 +183,7 @@ def run(ctx):
             for arity in (1, 2):
                 check_case(ctx, ld, {"entries": [[[1] + [0] * (arity - 1), [0, 2, 5]], [[2] + [1] * (arity - 1), [1, 4, X.U32]]],
                                      "common": 0, "arity": arity, "layout": lay}, reqs, pend)
+        narrow_rowid_reader(ctx, ld, reqs, pend)
         for fixed in (["s", "l"], ["l", "s"], ["s", "l", "s", "l"], None, None):
             long_case(ctx, ld, X.long_desc(ctx.rng, fixed))
         for _ in range(ctx.n(3) if ctx.scale > 1 else 0):
@@ -192,6 +219,14 @@ def replay(ctx, rep):
     if "duck_total_rowids" in c:
         c2 = core.Ctx(ID, "quick", 0)
         size_field_case(c2, c["duck_total_rowids"], c["entries"], [], [])
+        return not c2.oracle_failures
+    if "reader_rowid_word" in c:
+        c2 = core.Ctx(ID, "quick", 0)
+        ld = X.Loader()
+        try:
+            narrow_rowid_reader(c2, ld, [], [])
+        finally:
+            ld.close()
         return not c2.oracle_failures
     if "long" in c:
         c = dict(c, entries=X.expand_long(c))
